@@ -516,6 +516,27 @@ class StmtMixin(object):
         from .absint import Flow
         out = Flow()
         for it, s0 in self.ev(ctx, st, node.iter):
+            if isinstance(it, VTuple) and 1 <= len(it.items) <= 6 and isinstance(node.iter, (ast.Tuple, ast.List)):
+                # a loop over a short literal display is executed element by element
+                cur = [s0]
+                brk = []
+                for item in it.items:
+                    nxt = []
+                    for s in cur:
+                        ins = self.assign_target(ctx, s, node.target, item)
+                        b = self.exec_block(ctx, ins, node.body)
+                        nxt.extend(b.fall)
+                        nxt.extend(b.cont)
+                        brk.extend(b.brk)
+                        out.ret.extend(b.ret)
+                    cur = self.prune(nxt)
+                if node.orelse:
+                    out.absorb(self.exec_block(ctx, cur, node.orelse))
+                else:
+                    out.fall.extend(cur)
+                out.fall.extend(brk)
+                continue
+
             def enter(ctx_, s, it=it):
                 ev_, s2 = self.iter_elem(ctx_, s, it, node.iter)
                 ins = self.assign_target(ctx_, s2, node.target, ev_)
@@ -581,6 +602,11 @@ class StmtMixin(object):
             return (e if e is not None else VSym(fresh("elem"))), st
         if isinstance(it, VBytes) or (isinstance(it, VConst) and isinstance(it.v, bytes)):
             return VSym(fresh("byte"), kind="int"), st
+        if isinstance(it, VSym) and it.kind == "range" and len(it.t) == 4:
+            lo = Lin({a_: b_ for a_, b_ in it.t[2][0]}, it.t[2][1])
+            hi = Lin({a_: b_ for a_, b_ in it.t[3][0]}, it.t[3][1])
+            x = Lin.sym(fresh("ranged"))
+            return VInt(x), st.assume_ge(x - lo).assume_ge(hi - 1 - x)
         if isinstance(it, VSym) and it.kind == "count":
             sy = ("nonneg", fresh("counted"))
             define(sy, [Lin.sym(sy)])
